@@ -21,9 +21,9 @@ RULE = ('for every public entry point of mp with a frozen driver (tables/entrypo
         'with normal and raising bodies; (vi) dps/prec setter laws for every n <= 5000; (vii) 53 call templates (hypergeometric, Bessel, error/exponential integrals, elementary, ...) at extreme argument magnitudes 2^p, -2^(p+7), +-1e20, 1e-30, 2^-(p+9), 1e20j, 3+2^(p+3)j, from precisions 30/53/61/100, returning or raising.  Invariant: (mp.prec, mp.dps, rounding, iv.prec, iv.dps) '
         'after == before.  non-trivial = the call changed the precision at some point during the fault-free run (observed by a trace on '
         '_set_prec/_set_dps) or is a manager/setter case; classes are distinct by construction (dict of signatures)')
-ASSUMPTIONS = ['fault model: an exception may surface at any call event of mpmath code or in a user callback, not inside the precision write primitives themselves',
+ASSUMPTIONS = ['fault model: an exception may surface at any call event of mpmath code or in a user callback, not inside the precision read/write primitives themselves (prec/dps property getters and setters)',
                'two crash points with the same stack signature unwind identically w.r.t. precision state (CPython exception tables are per instruction offset)']
-BOUNDS = {'quick': 'all 330 mp entry points (+iv/fp lists) x first argument set x 34 start precisions; <=120 fault classes and <=25 callback indices per entry',
+BOUNDS = {'quick': 'all 330 mp entry points (+iv/fp lists): first argument set x 34 start precisions, <=120 fault classes (evenly spread over the execution) and <=25 callback indices; further argument sets x 3 start precisions, <=40 classes',
           'thorough': 'all argument sets, <=2000 classes, <=200 callback indices'}
 
 START_PRECS = [1, 2, 3, 10] + list(range(53, 81)) + [100, 333, 1000]
@@ -85,7 +85,7 @@ class Quiet:
         sys.stderr = self.old
 
 
-def check_entry(acc, ctxname, name, expr, th, precs=START_PRECS):
+def check_entry(acc, ctxname, name, expr, th, precs=START_PRECS, maxc=None):
     import mpmath
     from mpmath import mp
     ctx = getattr(mpmath, ctxname)
@@ -131,7 +131,8 @@ def check_entry(acc, ctxname, name, expr, th, precs=START_PRECS):
     if slow:
         return
     # (ii)/(iii) fault classes from start precisions 53 and 71
-    maxc = 2000 if th else 120
+    if maxc is None:
+        maxc = 2000 if th else 120
     maxcb = 200 if th else 25
     for p in (53, 71):
         set_prec(p)
@@ -147,7 +148,12 @@ def check_entry(acc, ctxname, name, expr, th, precs=START_PRECS):
         set_prec(p)
         if st == 'timeout':
             acc.count('skipped_slow'); break
-        classes = rec.order[:maxc]
+        classes = rec.order
+        if len(classes) > maxc:
+            # evenly spread over the execution (first and last classes always included), not just the earliest ones
+            n = len(classes)
+            idx = sorted(set([0, n - 1] + [int(i * (n - 1) / float(maxc - 1)) for i in range(maxc)]))
+            classes = [classes[i] for i in idx]
         acc.count('fault_classes_total', len(rec.order))
         acc.count('call_events_total', rec.events)
         if len(rec.order) > maxc:
@@ -206,9 +212,13 @@ def t_entries(task):
     acc = Acc()
     table = EP.load()
     for name in names:
-        entries = table[name] if th else table[name][:1]
-        for e in entries:
-            check_entry(acc, 'mp', name, e['args'], th)
+        entries = table[name]
+        for k, e in enumerate(entries):
+            if th or k == 0:
+                check_entry(acc, 'mp', name, e['args'], th)
+            else:
+                # further argument sets in the quick tier: three start precisions and a smaller class budget
+                check_entry(acc, 'mp', name, e['args'], th, precs=[53, 71, 60], maxc=40)
     if names:
         acc.sample(['mp.' + names[0], table[names[0]][0]['args'], 'start precisions %s; fault classes by stack signature' % START_PRECS[:6]])
     return acc
